@@ -482,11 +482,26 @@ theorem service_roots (p : GProg) (o : Orders) :
           · cases h
           · exact iR _ _ _ _ _ hr h
 
+theorem prelinkFuncs_roots (p : GProg) (fuel : Nat) (o : Orders) (pre : Bool) (m : Nat) (svcs : List Name)
+    (σ σ' : St) (hr : RootsOk p σ.root) (h : prelinkFuncs fuel p o pre m svcs σ = .ok σ') : RootsOk p σ'.root := by
+  unfold prelinkFuncs at h
+  split at h
+  · refine forEach_inv (fun σ => RootsOk p σ.root) _ ?_ _ _ _ hr h
+    intro n σa σb hi hx
+    unfold linkFuncsOf at hx
+    split at hx
+    · refine forEach_inv (fun σ => RootsOk p σ.root) _ ?_ _ _ _ hi hx
+      intro fname σc σd hi' hx'
+      split at hx'
+      · exact linkFunc_roots p _ _ _ _ _ _ hi' hx'
+      · cases hx'; exact hi'
+    · cases hx; exact hi
+  · cases h; exact hr
+
 theorem linkModule_roots (p : GProg) (fuel : Nat) (o : Orders) (pre : Bool) (m : Nat) (σ σ' : St)
     (hr : RootsOk p σ.root) (h : linkModule fuel p o pre m σ = .ok σ') : RootsOk p σ'.root := by
   obtain ⟨_, iNamed, _, iConst, _, _, _, _⟩ := rootsInv p fuel
   unfold linkModule at h
-  simp only at h
   split at h
   · rename_i σ1 ht
     have hr1 : RootsOk p σ1.root :=
@@ -497,18 +512,7 @@ theorem linkModule_roots (p : GProg) (fuel : Nat) (o : Orders) (pre : Bool) (m :
         forEach_inv (fun σ => RootsOk p σ.root) _ (fun n σ σ' hi hx => iConst _ _ _ _ hi hx) _ _ _ hr1 hc
       split at h
       · rename_i σ3 hpre
-        have hr3 : RootsOk p σ3.root := by
-          split at hpre
-          · refine forEach_inv (fun σ => RootsOk p σ.root) _ ?_ _ _ _ hr2 hpre
-            intro n σa σb hi hx
-            split at hx
-            · refine forEach_inv (fun σ => RootsOk p σ.root) _ ?_ _ _ _ hi hx
-              intro fname σc σd hi' hx'
-              split at hx'
-              · exact linkFunc_roots p _ _ _ _ _ _ hi' hx'
-              · cases hx'; exact hi'
-            · cases hx; exact hi
-          · cases hpre; exact hr2
+        have hr3 : RootsOk p σ3.root := prelinkFuncs_roots p _ _ _ _ _ _ _ hr2 hpre
         split at h
         · rename_i σ4 hs
           have hr4 : RootsOk p σ4.root :=
